@@ -165,9 +165,13 @@ impl GenerationPass for AvailableValuePass {
                 if node.calls_to().is_some() {
                     out_reg_n -= Register::return_addr_set().iter();
                 }
-                // An environment call overwrites its result registers
+                // An environment call overwrites its result registers. If the
+                // call number is not known, any call may be meant, and all of
+                // them return their results in a0 and a1.
                 if let Some((_, rets)) = node.known_ecall_signature() {
                     out_reg_n -= rets.iter();
+                } else if node.is_ecall() && node.known_ecall().is_none() {
+                    out_reg_n -= [Register::X10, Register::X11].into_iter();
                 }
                 if let Some((reg, reg_value)) = node.gen_reg_value() {
                     out_reg_n.insert(reg, reg_value);
@@ -428,6 +432,9 @@ fn rule_forget_overwritten_registers(
     }
     if let Some((_, rets)) = node.known_ecall_signature() {
         overwritten |= rets;
+    } else if node.is_ecall() && node.known_ecall().is_none() {
+        overwritten |= Register::X10;
+        overwritten |= Register::X11;
     }
     let stale = memory_out
         .iter()
